@@ -158,6 +158,9 @@ func genC06CatchUp(rt *rapid.T) Case {
 	cfg := Config{N: 4, Rules: rapid.SampledFrom(AllRules).Draw(rt, "rules"), Crypto: "fast", Batch: rapid.IntRange(1, 2).Draw(rt, "batch"), ActorAuto: true}
 	actor := rapid.IntRange(1, 4).Draw(rt, "actor")
 	cfg.Actors, cfg.Leaders = []int{actor}, []int{actor}
+	if rapid.IntRange(0, 3).Draw(rt, "rotation") == 0 {
+		cfg.Leaders = nil // round robin: the replica gets the actor's proposals only in the views the actor leads
+	}
 	var honest []int
 	for i := 0; i < 4; i++ {
 		if i+1 != actor {
